@@ -182,11 +182,11 @@ type recSink struct {
 
 var _ sink.ReplicationSink = (*recSink)(nil)
 
-func (s *recSink) GetName() string                                       { return s.name }
+func (s *recSink) GetName() string                                      { return s.name }
 func (s *recSink) Initialize(c util.Configuration, prefix string) error { return nil }
-func (s *recSink) GetSinkToDirectory() string                            { return s.dir }
-func (s *recSink) SetSourceFiler(*source.FilerSource)                    {}
-func (s *recSink) IsIncremental() bool                                   { return s.incremental }
+func (s *recSink) GetSinkToDirectory() string                           { return s.dir }
+func (s *recSink) SetSourceFiler(*source.FilerSource)                   {}
+func (s *recSink) IsIncremental() bool                                  { return s.incremental }
 func (s *recSink) DeleteEntry(key string, isDirectory, deleteIncludeChunks bool, signatures []int32) error {
 	s.calls = append(s.calls, call{op: "delete", key: key, isDir: isDirectory, delChunks: deleteIncludeChunks, sigs: fmt.Sprint(signatures)})
 	return nil
@@ -239,8 +239,8 @@ func (c setup) String() string {
 // expectation: the exact call list, or (boundary: the event is about the source
 // directory itself) "nothing, or calls whose keys are all the target directory".
 type expectation struct {
-	calls    []call
-	boundary bool
+	calls     []call
+	boundary  bool
 	anyParent bool // update's newParentPath not compared
 }
 
